@@ -195,6 +195,29 @@ func init() {
 			}
 			got, err := cipherOf(decSide, &firstByte{r: rng}).DecryptFromBuffer(dkey, &bin.Buffer{Buf: ct})
 			return tr.M{"ok": err == nil, "leaked": got != nil}
+		case "brute":
+			sd := tr.Str(in["side"])
+			key := randKey(rng)
+			payload := rbytes(rng, tr.Int(in["len"]))
+			d := crypto.EncryptedMessageData{Salt: rng.Int63(), SessionID: rng.Int63(), MessageID: rng.Int63(), SeqNo: 3, Message: rawPayload(payload)}
+			b := &bin.Buffer{}
+			if err := cipherOf(sd, &firstByte{b: byte(rng.Intn(256)), r: rng}).Encrypt(key, d, b); err != nil {
+				panic(err)
+			}
+			dec := cipherOf(opp(sd), &firstByte{r: rng})
+			tail := 16 * tr.Int(in["blocks"])
+			accepted := 0
+			for k := 0; k < tr.Int(in["n"]); k++ {
+				ct := append([]byte(nil), b.Buf...)
+				rng.Read(ct[len(ct)-tail:])
+				if bytes.Equal(ct, b.Buf) {
+					continue
+				}
+				if got, err := dec.DecryptFromBuffer(key, &bin.Buffer{Buf: ct}); err == nil || got != nil {
+					accepted++
+				}
+			}
+			return tr.M{"accepted": accepted}
 		case "padding":
 			key := randKey(rng)
 			pad := tr.Int(in["pad"])
